@@ -19,6 +19,8 @@ pub struct CacheStats {
     pub order_dependent_entries_skipped: u64,
     /// keys recognised (in this run) as derived from state which another feature refreshes later in the same pass
     pub order_dependent_keys: std::collections::BTreeSet<String>,
+    /// keys (other than the excused ones) whose recomputed value differed between the first pass and the fixpoint: compared
+    pub keys_differing_between_passes: std::collections::BTreeSet<String>,
     /// opaque (not compared) entries by the name of their state key type (hook H4: names)
     pub opaque_by_key: BTreeMap<String, u64>,
 }
@@ -244,11 +246,15 @@ fn recompute(ctx: &InsertionContext, stats: &mut CacheStats) -> (InsertionContex
 fn compare_tours(ctx: &InsertionContext, twin: &InsertionContext, pass_a: &[BTreeMap<String, String>], what: &str, rule: &'static str, stats: &mut CacheStats, out: &mut Vec<(&'static str, String)>) {
     // learn which keys are order dependent: once a key differs between the first pass and the fixpoint for any tour, it
     // is a lagging derived value by construction for every tour of this run (also for a tour where both happen to agree)
+    // (Until round 4 every key whose recomputed value differs between the first pass and the fixpoint was excused as well.
+    // That excused too much: a refresh which computes a value from what the *previous* refresh left behind - seeded change
+    // C05-41, waiting time derived from the arrivals of the schedule before - differs between the passes for exactly that
+    // reason. Only the statically identified work-balance keys are excused now; the others are counted.)
     for (ri, want) in twin.solution.routes.iter().enumerate() {
         let w_all = route_digest(want, stats);
         for (k, v) in &w_all {
-            if pass_a.get(ri).and_then(|a| a.get(k)) != Some(v) {
-                stats.order_dependent_keys.insert(k.clone());
+            if pass_a.get(ri).and_then(|a| a.get(k)) != Some(v) && !stats.order_dependent_keys.contains(k) {
+                stats.keys_differing_between_passes.insert(k.clone());
             }
         }
     }
